@@ -123,6 +123,8 @@ pub trait Kid {
     type KMut: Ma + 'static;
     fn kid_id(&self) -> i64;
     fn kid_owned(&self) -> Self::KOwned;
+    /// the same through a pinned receiver (poll-style methods): the child still takes its own context clone
+    fn kid_owned_pin(self: core::pin::Pin<&Self>) -> Self::KOwned;
     fn kid_ref(&self) -> &Self::KRef;
     fn kid_mut(&mut self) -> &mut Self::KMut;
     /// the reference returned depends on the argument (0: first inner value, otherwise the second)
@@ -281,6 +283,10 @@ macro_rules! impl_kid {
                 self.0.id as i64
             }
             fn kid_owned(&self) -> P0 {
+                self.0.check();
+                P0::new(payload::fresh_id(), (self.0.val + 5) % M)
+            }
+            fn kid_owned_pin(self: core::pin::Pin<&Self>) -> P0 {
                 self.0.check();
                 P0::new(payload::fresh_id(), (self.0.val + 5) % M)
             }
